@@ -12,14 +12,17 @@ INSTANCE Cli
 Formats == {"par", "par2"}
 Spellings == [create |-> {"c", "create", "C", "Create"}, verify |-> {"v", "verify", "VERIFY"}, repair |-> {"r", "repair", "Repair"}]
 States == {"intact", "repairable", "atcapacity", "unrepairable", "nopar_intact", "nopar_damaged", "misplaced",
-           "badindex", "noindex"}
+           "badindex", "noindex", "partialfail"}
+\* "partialfail" (PAR2): every protected file and the sub-directory of one of them are gone; Repair can
+\* rewrite the top-level files but the write into the missing directory fails: an I/O failure after a
+\* partial repair, i.e. "another failure" for repair; verify just sees missing files (needed, possible)
 Cwds == {"setdir", "parent", "unrelated"}
 Paths == {"rel", "abs"}
 
 \* ground truth of each constructed state (the harness re-derives it from the bytes and reports it;
 \* the trace judge uses the harness's facts, this table is what the model expects them to be)
-Needed(s) == s \in {"repairable", "atcapacity", "unrepairable", "nopar_damaged", "misplaced"}
-Possible(s) == s \in {"intact", "repairable", "atcapacity", "nopar_intact", "misplaced"}
+Needed(s) == s \in {"repairable", "atcapacity", "unrepairable", "nopar_damaged", "misplaced", "partialfail"}
+Possible(s) == s \in {"intact", "repairable", "atcapacity", "nopar_intact", "misplaced", "partialfail"}
 IndexOK(s) == s \notin {"badindex", "noindex"}
 
 VARIABLE c
@@ -28,20 +31,21 @@ Next ==
   /\ c.kind = "root"
   /\ \/ \E f \in Formats, cmd \in {"verify", "repair"}, s \in States, w \in Cwds, p \in Paths :
           \E sp \in Spellings[cmd] :
-             /\ ~(f = "par" /\ s = "misplaced")
+             /\ ~(f = "par" /\ s \in {"misplaced", "partialfail"})
              /\ ~(w = "unrelated" /\ p = "rel")
              /\ c' = [kind |-> "op", usage |-> "none", ext |-> f, cmd |-> cmd, spelling |-> sp, state |-> s, cwd |-> w, path |-> p,
-                      index_ok |-> IndexOK(s), inputs_ok |-> TRUE, needed |-> Needed(s), possible |-> Possible(s)]
+                      index_ok |-> IndexOK(s), inputs_ok |-> TRUE, needed |-> Needed(s), possible |-> Possible(s),
+                      iofail |-> (s = "partialfail" /\ cmd = "repair")]
      \/ \E f \in Formats \cup {"unknown"}, inp \in BOOLEAN, w \in Cwds, p \in Paths : \E sp \in Spellings["create"] :
              /\ ~(w = "unrelated" /\ p = "rel")
              /\ c' = [kind |-> "op", usage |-> "none", ext |-> f, cmd |-> "create", spelling |-> sp, state |-> "fresh", cwd |-> w, path |-> p,
-                      index_ok |-> TRUE, inputs_ok |-> inp, needed |-> FALSE, possible |-> TRUE]
+                      index_ok |-> TRUE, inputs_ok |-> inp, needed |-> FALSE, possible |-> TRUE, iofail |-> FALSE]
      \/ \E cmd \in {"verify", "repair"}, w \in {"setdir"} :
              c' = [kind |-> "op", usage |-> "none", ext |-> "unknown", cmd |-> cmd, spelling |-> cmd, state |-> "intact", cwd |-> w, path |-> "rel",
-                   index_ok |-> TRUE, inputs_ok |-> TRUE, needed |-> FALSE, possible |-> TRUE]
+                   index_ok |-> TRUE, inputs_ok |-> TRUE, needed |-> FALSE, possible |-> TRUE, iofail |-> FALSE]
      \/ \E u \in {"help", "nocommand", "badcommand", "badflag", "nooperand", "badglobalflag"}, cmd \in {"create", "verify", "repair"}, f \in Formats :
              c' = [kind |-> "op", usage |-> u, ext |-> f, cmd |-> cmd, spelling |-> cmd, state |-> "intact", cwd |-> "setdir", path |-> "rel",
-                   index_ok |-> TRUE, inputs_ok |-> TRUE, needed |-> FALSE, possible |-> TRUE]
+                   index_ok |-> TRUE, inputs_ok |-> TRUE, needed |-> FALSE, possible |-> TRUE, iofail |-> FALSE]
 
 IsCase == c.kind = "op"
 C20_NonEmpty == IsCase => Admissible(c) # {}
@@ -51,7 +55,7 @@ C20_ZeroOnlyOnSuccess ==
                /\ (c.usage = "none" =>
                      \/ (c.cmd = "create" /\ c.inputs_ok /\ c.ext # "unknown")
                      \/ (c.cmd = "verify" /\ c.index_ok /\ ~c.needed)
-                     \/ (c.cmd = "repair" /\ c.index_ok /\ (~c.needed \/ c.possible))))
+                     \/ (c.cmd = "repair" /\ c.index_ok /\ ~c.iofail /\ (~c.needed \/ c.possible))))
 C20_UsageIsThree == (IsCase /\ c.usage \notin {"none", "help"}) => Admissible(c) = {3}
 
 RECURSIVE SetToSeq(_)
